@@ -356,7 +356,7 @@ fn h_long(d: &str) -> Out {
     "url" => (&["Url::parse", "StringOrUrl::parse", "Url::join"], format!("https://example.com/{}", "a/".repeat(n / 2))),
     "b64" => (&["jwu::decode_b64(_json)", "BaseEncoding::decode", "decode_multibase/MethodData::try_decode", "StatusList2021::try_from_encoded_str", "RevocationBitmap::try_from(Service)[data-url payload]"], "A".repeat(n)),
     "base58" => (&["BaseEncoding::decode", "decode_multibase/MethodData::try_decode"], format!("z{}", "2".repeat(n))),
-    "network" => (&["NetworkName::try_from", "NetworkName::from_json"], "a".repeat(n)),
+    "network" => (&["NetworkName::try_from"], "a".repeat(n)),
     "integrity" => (&["IntegrityMetadata::parse"], format!("sha256-{}-{}", "A".repeat(n / 4 * 4), "o".repeat(16))),
     "jws" => (&["Decoder::decode_compact_serialization", "JwtCredentialValidator::validate", "JwtPresentationValidator::validate"], {
       let payload = format!(r#"{{"iss":"did:example:123","nbf":1,"vc":{{"@context":"https://www.w3.org/2018/credentials/v1","type":["VerifiableCredential"],"credentialSubject":{{"x":"{}"}}}}}}"#, "a".repeat(n));
@@ -441,22 +441,25 @@ const HOSTILE: &[(&str, HostileFn)] = &[
 ];
 
 const AS_LIMIT: u64 = 4 << 30; // 4 GiB address space
-const CPU_LIMIT_S: u64 = 60;
-const WALL_LIMIT_S: u64 = 120;
+/// CPU limit of a child: small inputs (non-termination probe) / large inputs
+const CPU_LIMIT_SMALL_S: u64 = 5;
+const CPU_LIMIT_LARGE_S: u64 = 60;
+const WALL_LIMIT_S: u64 = 240;
 /// inputs below this size that exhaust the CPU limit are judged as non-termination
 const SMALL_INPUT: usize = 4096;
 
 /// Child mode: `c05 --c05-child <entry> <descriptor>`. Exit codes: 0 returned (label on stdout), 3 unwound
 /// (panic key on stdout); anything else (signal, 101, 134 ...) is an abort and is judged by the parent.
 pub fn child_main(args: &[String]) -> ! {
-  if args.len() != 2 {
+  if args.len() != 3 {
     eprintln!("child: bad arguments");
     std::process::exit(2);
   }
+  let cpu: u64 = args[2].parse().unwrap_or(CPU_LIMIT_LARGE_S);
   unsafe {
     let lim = libc::rlimit { rlim_cur: AS_LIMIT, rlim_max: AS_LIMIT };
     libc::setrlimit(libc::RLIMIT_AS, &lim);
-    let lim = libc::rlimit { rlim_cur: CPU_LIMIT_S, rlim_max: CPU_LIMIT_S + 5 };
+    let lim = libc::rlimit { rlim_cur: cpu, rlim_max: cpu + 2 };
     libc::setrlimit(libc::RLIMIT_CPU, &lim);
     let lim = libc::rlimit { rlim_cur: 0, rlim_max: 0 };
     libc::setrlimit(libc::RLIMIT_CORE, &lim);
@@ -490,12 +493,23 @@ enum ChildResult {
   Machinery(String),
 }
 
+fn is_small(d: &str) -> bool {
+  d.len() <= SMALL_INPUT && !d.split(':').any(|p| p.parse::<usize>().map(|n| n > SMALL_INPUT).unwrap_or(false))
+}
+fn cpu_limit(d: &str) -> u64 {
+  if is_small(d) {
+    CPU_LIMIT_SMALL_S
+  } else {
+    CPU_LIMIT_LARGE_S
+  }
+}
+
 fn run_child(entry: &str, descriptor: &str) -> ChildResult {
   let exe = match std::env::current_exe() {
     Ok(e) => e,
     Err(e) => return ChildResult::Machinery(format!("current_exe: {e}")),
   };
-  let mut child = match Command::new(exe).arg(CHILD_ARG).arg(entry).arg(descriptor).stdin(Stdio::null()).stdout(Stdio::piped()).stderr(Stdio::piped()).spawn() {
+  let mut child = match Command::new(exe).arg(CHILD_ARG).arg(entry).arg(descriptor).arg(cpu_limit(descriptor).to_string()).stdin(Stdio::null()).stdout(Stdio::piped()).stderr(Stdio::piped()).spawn() {
     Ok(c) => c,
     Err(e) => return ChildResult::Machinery(format!("spawn: {e}")),
   };
@@ -566,8 +580,8 @@ pub fn eval_hostile(ctx: &Ctx, case: &Case) {
       "ABORT".to_string()
     }
     ChildResult::CpuTimeout => {
-      if d.len() <= SMALL_INPUT && !d.split(':').any(|p| p.parse::<usize>().map(|n| n > SMALL_INPUT).unwrap_or(false)) {
-        ctx.violation(&format!("{short}|does-not-terminate"), &format!("no result within {CPU_LIMIT_S} s of CPU time on an input of {} bytes", d.len()), case);
+      if is_small(&d) {
+        ctx.violation(&format!("{short}|does-not-terminate"), &format!("no result within {CPU_LIMIT_SMALL_S} s of CPU time on an input of {} bytes", d.len()), case);
         "NO-TERMINATION".to_string()
       } else {
         "cpu-limit-on-large-input(not judged)".to_string()
@@ -745,7 +759,8 @@ pub fn generate(ctx: &Ctx) {
   }
   for what in ["did", "did-colons", "did-pct", "did-url-query", "timestamp-fraction", "url", "b64", "base58", "network", "integrity", "jws", "jws-dots", "sd-jwt-tildes", "sd-jwt-disclosures"] {
     let cap = if what == "base58" || what == "sd-jwt-disclosures" { 100_000 } else { usize::MAX };
-    for n in sizes(&[100_000, 4_000_000], &[100_000, 4_000_000, 64_000_000]) {
+    let heavy = ["did", "jws", "url", "timestamp-fraction"].contains(&what);
+    for n in sizes(if heavy { &[100_000, 4_000_000] } else { &[100_000] }, &[100_000, 4_000_000, 64_000_000]) {
       hostile.push((HOSTILE[4].0, format!("long:{what}:{}", n.min(cap))));
     }
   }
@@ -755,7 +770,9 @@ pub fn generate(ctx: &Ctx) {
     }
   }
   hostile.push((HOSTILE[6].0, format!("did:did:iota:smr:{}", crate::strings::VALID_TAG)));
-  hostile.push((HOSTILE[6].0, format!("did:did:iota:{}", crate::strings::VALID_TAG)));
+  if !q {
+    hostile.push((HOSTILE[6].0, format!("did:did:iota:{}", crate::strings::VALID_TAG)));
+  }
   hostile.sort();
   hostile.dedup();
   let cases: Vec<Case> = hostile.iter().filter(|(e, _)| crate::only(e)).map(|(e, d)| Case { entry: e.to_string(), s: Some(d.clone()), b: None }).collect();
@@ -768,9 +785,9 @@ pub fn generate(ctx: &Ctx) {
   if let Some(c) = cases.first() {
     ctx.sample("hostile", c);
   }
-  ctx.part("census: hostile sizes (child process)", json!({"cases": cases.len(), "rlimit_as_bytes": AS_LIMIT, "rlimit_cpu_s": CPU_LIMIT_S, "wall_limit_s": WALL_LIMIT_S, "generators": HOSTILE.iter().map(|h| h.0).collect::<Vec<_>>()}));
+  ctx.part("census: hostile sizes (child process)", json!({"cases": cases.len(), "rlimit_as_bytes": AS_LIMIT, "rlimit_cpu_s_small_inputs": CPU_LIMIT_SMALL_S, "rlimit_cpu_s_large_inputs": CPU_LIMIT_LARGE_S, "wall_limit_s": WALL_LIMIT_S, "generators": HOSTILE.iter().map(|h| h.0).collect::<Vec<_>>()}));
   ctx.bound("hostile_rlimit_as", AS_LIMIT);
-  ctx.assume("hostile family: the child is this same binary; RLIMIT_AS = 4 GiB, RLIMIT_CPU = 60 s; an abort (allocation failure, stack overflow, SIGSEGV) is a violation; exhausting the CPU limit is a violation only when the input is smaller than 4 KiB (non-termination), otherwise it is recorded and not judged");
+  ctx.assume("hostile family: the child is this same binary; RLIMIT_AS = 4 GiB, RLIMIT_CPU = 5 s for inputs below 4 KiB and 60 s otherwise; an abort (allocation failure, stack overflow, SIGSEGV) is a violation; exhausting the CPU limit is a violation only when the input is smaller than 4 KiB (non-termination), otherwise it is recorded and not judged");
   let _ = Local::default();
   let _ = In::S("");
 }
